@@ -40,9 +40,19 @@ def gvoronoi(labeled):
     labeled = np.ascontiguousarray(labeled)
     bw = (labeled == 0)
     f = np.zeros(bw.shape, np.double)
-    f[bw] = len(f.shape)*max(f.shape)**2+1
     orig = np.arange(f.size, dtype=np.intc).reshape(f.shape)
-    _distance.dt(f, orig)
+    if f.ndim == 2:
+        f[bw] = len(f.shape)*max(f.shape)**2+1
+        _distance.dt(f, orig)
+    else:
+        # as in mahotas.distance: the transform is separable, so run the exact
+        # 1-D pass (which also tracks the origins) along every line of every axis
+        f[bw] = sum(s*s for s in f.shape)+1
+        for axis in range(f.ndim):
+            flines = np.moveaxis(f, axis, -1)
+            olines = np.moveaxis(orig, axis, -1)
+            for idx in np.ndindex(*flines.shape[:-1]):
+                _distance.dt(flines[idx][None,:], olines[idx][None,:])
     return labeled.flat[orig]
 
 
